@@ -447,10 +447,17 @@ func (p *DefParser) parseCmd(dagIns *entity.DagInstance) (err error) {
 			log.Errorf("command[%s] is invalid, ignore it", dagIns.Cmd.Name)
 		}
 
+		// only retry/continue change the status of the dag instance (dagIns.Run); a cancel
+		// command must not write back the status it read when the command was listed: the
+		// cancelled task may have settled the instance in the meantime
+		patchStatus := dagIns.Status
+		if dagIns.Cmd.Name == entity.CommandNameCancel {
+			patchStatus = ""
+		}
 		dagIns.Cmd = nil
 		if err := GetStore().PatchDagIns(&entity.DagInstance{
 			BaseInfo: dagIns.BaseInfo,
-			Status:   dagIns.Status,
+			Status:   patchStatus,
 			Cmd:      dagIns.Cmd,
 			Reason:   dagIns.Reason,
 		}, "Cmd", "Reason"); err != nil {
